@@ -115,8 +115,54 @@ func detWorkload(t *sim.Tape) (ops []detOp, desc string) {
 				g, err := type1.Read(bytes.NewReader(bf))
 				return dump.Err(err) + " " + dump.Font(g)
 			}})
+			// many reads in a row: if the library spreads work over goroutines of
+			// its own, their completion order varies from read to read
+			ops = append(ops, detOp{name: "type1.Read x60 (large seac font, same bytes)", heavy: true, run: func() string {
+				first := ""
+				for i := 0; i < 60; i++ {
+					g, err := type1.Read(bytes.NewReader(bf))
+					r := dump.Err(err) + " " + dump.Font(g)
+					if i == 0 {
+						first = r
+					} else if r != first {
+						return fmt.Sprintf("INCONSISTENT: read #%d of the same bytes differs from read #0: %s", i, firstDiff(r, first))
+					}
+				}
+				return digest(first)
+			}})
 		}
 	}
+	// a series of fonts that differ in their outlines only, each built afresh,
+	// written and dropped, with collections in between: later ones live where
+	// earlier ones lived
+	nsib := 6 + t.Choose(20)
+	ops = append(ops, detOp{name: fmt.Sprintf("Font.Write of %d look-alike fonts, each built afresh and dropped", nsib), run: func() string {
+		var sb strings.Builder
+		for i := 0; i < nsib; i++ {
+			sib := gen.SiblingFont(f, i)
+			var buf bytes.Buffer
+			err := sib.Write(&buf, &type1.WriterOptions{Format: gen.FontFormats[i%len(gen.FontFormats)]})
+			sb.WriteString(digest(dump.Err(err)+" "+buf.String()) + " ")
+			sib = nil
+			if i%2 == 1 {
+				runtime.GC()
+			}
+		}
+		return sb.String()
+	}})
+	// the budget error (a shared value) with whatever text and position
+	// information it carries, several times over
+	ops = append(ops, detOp{name: "Execute(program over budget) x3", run: func() string {
+		r := ""
+		for i, src := range []string{"1 2 add pop\n\n\n{ 1 pop } loop", "%!PS\n/a { a } def\n 1 1 100000 { pop } for", "{ } loop"} {
+			in := postscript.NewInterpreter()
+			in.MaxOps = 200 + 50*i
+			err := in.Execute(strings.NewReader(src))
+			r += fmt.Sprintf("[%s %d]", dump.Err(err), in.NumOps)
+		}
+		d, err := postscript.ReadCMap(strings.NewReader("/CIDInit /ProcSet findresource begin 1 1 10000000 { pop } for"))
+		return r + fmt.Sprintf(" ReadCMap: %v %s", d == nil, dump.Err(err))
+	}})
 	if lf, n := gen.LenIVFont(t); lf != nil {
 		// an ordinary font read again after a font with another lenIV
 		ord := fontFiles
